@@ -67,7 +67,7 @@ class CFG:
         self.nodes.append(n)
         self.succ[n.id] = []
         self.pred[n.id] = []
-        if astnode is not None:
+        if astnode is not None and kind not in ("T", "F"):
             self.where.setdefault(id(astnode), []).append(n.id)
         return n.id
 
